@@ -192,6 +192,7 @@ func (o *Obligation) buildBody(w *World, depth int, dropHyp int, extra ...*Term)
 		reveal = enc.fc.Reveal
 	}
 	unf := w.unfoldSpecs(all, depth, reveal)
+	unf = append(unf, w.pureFacts(append(append([]*Term{}, all...), unf...))...)
 	// dummy heap constants possibly left by abstract evaluation
 	dummies := map[string]bool{}
 	for _, t := range append(all, unf...) {
@@ -231,3 +232,121 @@ func (o *Obligation) buildBody(w *World, depth int, dropHyp int, extra ...*Term)
 }
 
 const scriptHeader = "(set-option :produce-models true)\n(set-logic ALL)\n"
+
+// pureFacts instantiates the heap-independent postconditions of pure library functions for every
+// application term in the obligation (e.g. tupleLen(t) >= 0), so that facts about such terms do not
+// depend on whether the program happened to call the function.
+func (w *World) pureFacts(ts []*Term) []*Term {
+	if w.pureByName == nil {
+		w.pureByName = map[string]*PureFn{}
+		for _, pf := range w.pureByKey {
+			for _, n := range pf.Names {
+				w.pureByName[n] = pf
+			}
+		}
+	}
+	seen := map[string]bool{}
+	var out []*Term
+	for _, t := range ts {
+		t.walk(func(x *Term) {
+			pf, ok := w.pureByName[x.Op]
+			if !ok || len(x.Args) != len(pf.Params) {
+				return
+			}
+			k := x.String()
+			if seen[k] {
+				return
+			}
+			seen[k] = true
+			boundVars := map[string]bool{}
+			skip := false
+			x.walk(func(y *Term) {
+				if len(y.Args) == 0 && strings.HasPrefix(y.Op, "q_") {
+					boundVars[y.Op] = true
+				}
+				if len(y.Args) == 0 && strings.HasPrefix(y.Op, "ax_") {
+					skip = true
+				}
+			})
+			if skip {
+				return
+			}
+			fc := w.P.Contracts[pf.Key]
+			if fc == nil || len(fc.Ensures) == 0 || len(fc.Params) != len(pf.Params) {
+				return
+			}
+			fh := &fixedHeap{m: map[string]*Term{}, w: w}
+			env := &Env{w: w, vars: map[string]TV{}, state: fh, old: fh, scope: fc.Scope, where: "pure fact " + pf.Key}
+			for i, p := range fc.Params {
+				env.vars[p] = TV{x.Args[i], pf.Params[i]}
+			}
+			for i, r := range fc.Results {
+				if i < len(pf.Names) {
+					name := w.ufunc(pf.Names[i], sortsOf(w, pf.Params), w.sortOf(pf.Results[i]))
+					env.vars[r] = TV{A(name, x.Args...), pf.Results[i]}
+				}
+			}
+			// the function's precondition guards the fact
+			var guard []*Term
+			okAll := true
+			tr := func(c *Clause) *Term {
+				var res *Term
+				func() {
+					defer func() {
+						if r := recover(); r != nil {
+							okAll = false
+						}
+					}()
+					res = env.trBool(c.Expr)
+				}()
+				return res
+			}
+			for _, rq := range fc.Requires {
+				if g := tr(rq); g != nil {
+					guard = append(guard, g)
+				}
+			}
+			for _, en := range fc.Ensures {
+				f := tr(en)
+				if f == nil {
+					continue
+				}
+				heapy := false
+				f.walk(func(y *Term) {
+					if strings.HasPrefix(y.Op, "DUMMY_") {
+						heapy = true
+					}
+				})
+				for _, g := range guard {
+					g.walk(func(y *Term) {
+						if strings.HasPrefix(y.Op, "DUMMY_") {
+							heapy = true
+						}
+					})
+				}
+				if heapy {
+					continue
+				}
+				fact := Implies(And(guard...), f)
+				if len(boundVars) > 0 {
+					var bs []string
+					for _, b := range sortedKeys(boundVars) {
+						bs = append(bs, "("+b+" Int)")
+					}
+					fact = A("forall", A("("+strings.Join(bs, " ")+")"), A("!", fact, Leaf(":pattern"), A("", x)))
+				}
+				out = append(out, fact)
+			}
+			_ = okAll
+		})
+	}
+	return out
+}
+
+func sortsOf(w *World, ts []types.Type) []string {
+	out := make([]string, len(ts))
+	for i, t := range ts {
+		out[i] = w.sortOf(t)
+	}
+	return out
+}
